@@ -55,7 +55,7 @@ MANIFEST = {
     "borrowing call on xs[i] writes the callee's result back to exactly index i; unpacking gives left targets xs[:l], starred the "
     "middle slice, right targets xs[n-r:] in order; ArrayIter yields elements 0..n-1 once each in order and the final "
     "discard_all_borrowed succeeds; the comprehension loop builds the array in generation order; sequences of classical reads/writes "
-    "refine Python list semantics (induction). Tied to /repo every run: the op lists with wiring are extracted from the Hugr the REAL "
+    "refine Python list semantics and sequences of borrows/returns refine the list + lent-flag reference model (induction). Tied to /repo every run: the op lists with wiring are extracted from the Hugr the REAL "
     "compiler produces for probe programs and (a) proved equal to the model's emission by `decide` in a regenerated Gen file, "
     "(b) compared for generated pattern shapes through the driver, (c) interpreted on random inputs against Python-list semantics; "
     "ArrayIter.__next__ is executed from /repo's source under CPython against the Lean model.",
@@ -263,7 +263,18 @@ def py_step(name, params, args):
         if len(args) != 2 or args[0][0] != "int" or args[1][0] != "int":
             ill()
         return [("int", wrap64(args[0][1] + args[1][1]))]
-    raise Panic("illTyped")
+    if name == "ifromusize":
+        if len(args) != 1 or args[0][0] != "usize":
+            ill()
+        return [("int", wrap64(args[0][1]))]
+    # an operation this interpreter has no semantics for: the result cannot be judged (reported as a broken tie, not as
+    # a failing input)
+    raise Panic("unknownOp:" + name)
+
+
+def unknown_op(r):
+    """interpreter result that only says 'this op list contains an operation I have no semantics for'"""
+    return r[0] == "panic" and r[1].startswith("unknownOp:")
 
 
 def py_run(prog, inputs):
@@ -742,6 +753,8 @@ def _real_set(progs, linear, cells, i, v):
 def _canon_get(r):
     """map an interpreter result of a getitem op list to the oracle's vocabulary (+ display string)"""
     if r[0] == "panic":
+        if r[1].startswith("unknownOp:"):
+            return "unknown", show_result(r)
         return ("panic" if r[1] != "illTyped" else "illTyped"), show_result(r)
     v = r[1]
     if len(v) == 2 and v[0][0] == "elem" and v[1][0] == "arr":
@@ -751,6 +764,8 @@ def _canon_get(r):
 
 def _canon_set(r):
     if r[0] == "panic":
+        if r[1].startswith("unknownOp:"):
+            return "unknown", show_result(r)
         return ("panic" if r[1] != "illTyped" else "illTyped"), show_result(r)
     v = r[1]
     if len(v) == 1 and v[0][0] == "arr":
@@ -821,7 +836,9 @@ def _sec0(ctx, fixed, corpus):
     for k in ("inout_linear", "inout_affine_custom"):
         got = py_run(fixed[k], [("arr", (10, 20, 30)), ("int", 1)])
         want = ("ok", [("arr", (10, 20 + CALL_OFFSET, 30))])
-        if got != want:
+        if unknown_op(got):
+            ctx.broke(f"probe `{k}`: extracted op list contains an operation without modelled semantics: {got[1]}")
+        elif got != want:
             ctx.violation(f"input:probe {k}", f"probe `{k}`: callee(xs[1]) on [10, 20, 30] through the lowered op list "
                           f"{_sexp(fixed[k])} gives {show_result(got)}, expected {show_result(want)}",
                           {"case": {"kind": "probe", "name": k}, "extracted": _sexp(fixed[k]), "real": show_result(got),
@@ -928,7 +945,9 @@ def _sec1(ctx, fixed, corpus):
         want = [("elem", x) for x in xs[:l]] + ([("arr", tuple(xs[l:nlen - r]))] if starred else []) + \
                [("elem", x) for x in xs[nlen - r:]]
         got = py_run(prog, [("arr", tuple(xs))])
-        if got != ("ok", want):
+        if unknown_op(got):
+            ctx.broke(f"unpack probe {sh}: extracted op list contains an operation without modelled semantics: {got[1]}")
+        elif got != ("ok", want):
             ctx.violation(key, f"unpacking `{src.splitlines()[2].strip()}` of {xs}: lowered op list gives "
                           f"{show_result(got)}, Python gives {show_result(('ok', want))}",
                           {"case": case, "source": src, "extracted": real, "got": show_result(got),
@@ -948,6 +967,9 @@ def _sec2(ctx, fixed, corpus):
     for c in corpus:
         if c.get("kind") == "seq":
             metas.append((bool(c["linear"]), [None if x is None else x for x in c["cells"]], [tuple(o) for o in c["ops"]]))
+        if c.get("kind") == "access":  # a replayed single access
+            op = ("g", c["i"]) if c.get("v") is None else ("s", c["i"], c["v"])
+            metas.append((bool(c["linear"]), list(c["cells"]), [op]))
     for _ in range(nseq):
         linear = rng.random() < 0.5
         cells = gen_cells(rng, lent_p=0.25 if linear else 0.05)
@@ -994,10 +1016,12 @@ def _sec2(ctx, fixed, corpus):
             real_c, real_s = _canon_set(real)
         nontriv = not (0 <= i < nlen) or (0 <= i < nlen and cells[i] is None)
         ctx.count(line, nontrivial=nontriv, kind=("lin-" if linear else "cls-") + k + ":" + ("ok" if real[0] == "ok" else "panic"))
-        if real_c != orc:
+        if real_c == "unknown":
+            ctx.broke(f"extracted op list contains an operation without modelled semantics: {real_s}")
+        elif real_c != orc:
             ctx.violation("input:" + line, f"array access `{line}` through the lowered op list gives {real_s}; "
                           f"Python-list semantics (non-negative indices, lent flags) gives {orc}",
-                          {"case": {"kind": "access", "line": line}, "real": real_s, "oracle": orc, "model": model,
+                          {"case": {"kind": "access", "line": line, "linear": linear, "cells": cells, "i": i, "v": v}, "real": real_s, "oracle": orc, "model": model,
                            "extracted": _sexp(fixed[("getitem_" if k == 'g' else "setitem_") + ("linear" if linear else "classical")])})
         if real_s != model:
             ctx.broke(f"correspondence: extracted op list vs Lean model on `{line}` (real={real_s} model={model})")
@@ -1024,7 +1048,9 @@ def _sec3(ctx, fixed, corpus):
             orc = "panic"
         real_c = "panic" if real[0] == "panic" and real[1] != "illTyped" else real
         ctx.count(line, nontrivial=not (0 <= i < len(cells)) or cells[i] is None, kind="inout:" + real[0])
-        if real_c != orc:
+        if unknown_op(real):
+            ctx.broke(f"inout probe: extracted op list contains an operation without modelled semantics: {real[1]}")
+        elif real_c != orc:
             ctx.violation(f"input:inout cells={cells_sexp(cells)} i={i}",
                           f"cal(xs[{i}]) on {cells_sexp(cells)} through the lowered op list gives {show_result(real)}, expected {orc}",
                           {"case": {"kind": "inout", "cells": cells, "i": i}, "real": show_result(real), "oracle": repr(orc)})
@@ -1164,7 +1190,7 @@ def search(ctx, why):
             orc = oracle_set(linear, cells, i, v)
             real_c, _ = _canon_set(real)
             line = f"(setitem {int(linear)} {cells_sexp(cells)} {i} {v})"
-        if real_c != orc:
+        if real_c != "unknown" and real_c != orc:
             ctx.violation("input:" + line, f"array access `{line}` through the lowered op list gives {show_result(real)}; "
                           f"Python-list semantics gives {orc}",
                           {"case": {"kind": "access", "line": line}, "real": show_result(real), "oracle": repr(orc), "why": why})
